@@ -70,6 +70,8 @@ impl CaoLangAllocator {
         let s = l.size() + l.align();
         let allocated = s + self.allocated.fetch_add(s, Ordering::Relaxed);
         if allocated > self.limit.load(Ordering::Relaxed) {
+            // nothing was allocated, roll the counter back
+            self.allocated.fetch_sub(s, Ordering::Relaxed);
             return Err(AllocError::OutOfMemory);
         }
         #[cfg(feature = "verif-hooks")]
